@@ -143,6 +143,30 @@ Theorem C20_fill_without_restore_leaks_mode : exists s w, no_macro w = true /\
   fst (ccompile false 200 s w) = false /\ cs_mode (snd (ccompile false 200 s w)) = Lsp /\ cs_mode s = Normal.
 Proof. exact unfixed_fill_leaks_mode. Qed.
 
+(** The backend of compile-time evaluation (code as it stands, fix 2bf92f0): a fresh safe backend in
+    the default modes, the compiler's own backend in editor mode - never the native one behind the
+    embedder's back.  Together with C20_lsp_mode_readonly: what the gate lets run in editor mode makes
+    only read-only calls, and makes them on the backend the embedder supplied. *)
+Theorem C20_comptime_backend_own : forall m,
+  (comptime_backend m = BSafe /\ m <> Lsp) \/ (comptime_backend m = BOwn /\ m = Lsp).
+Proof. exact comptime_backend_never_native. Qed.
+(** Record of the repaired finding: before 2bf92f0 editor mode evaluated on the native backend. *)
+Theorem C20_comptime_backend_refuted_pre : exists m, comptime_backend_pre m = BNative.
+Proof. exact comptime_backend_refuted_pre. Qed.
+(** The pre-evaluation cache: a miss calls the compiler's own backend ... *)
+Theorem C20_precache_miss_own_backend : forall key keyb val eval c b k,
+  clookup key keyb val k c = None ->
+  snd (fst (comptime_cached key keyb val eval c b k)) = snd (eval b k).
+Proof. exact cache_miss_own_backend. Qed.
+(** ... but (finding, code as it stands) a hit serves what ANOTHER compiler's backend produced, with
+    no call on the asking compiler's backend: the key is the node alone. *)
+Theorem C20_precache_crosses_backends_refuted :
+  exists (eval : nat -> nat -> option string * list event) c1 v1,
+    comptime_cached nat Nat.eqb (option string) eval [] 0 7 = (Some v1, ["file_read_all"%string], c1) /\
+    eval 1 7 = (None, ["file_read_all"%string]) /\
+    comptime_cached nat Nat.eqb (option string) eval c1 1 7 = (Some v1, [], c1).
+Proof. exact cache_crosses_backends_refuted. Qed.
+
 (** Non-vacuity: with concrete label-respecting semantics, a pure tree (a modifier running an
     operand twice around pure primitives, through a function call) is accepted and silent, while the
     same tree with a system function is refused and does emit. *)
@@ -174,3 +198,7 @@ Print Assumptions C20_snippet_restores_state.
 Print Assumptions C20_compile_restores_flags.
 Print Assumptions C20_codemacro_depth_leak_refuted.
 Print Assumptions C20_fill_without_restore_leaks_mode.
+Print Assumptions C20_comptime_backend_own.
+Print Assumptions C20_comptime_backend_refuted_pre.
+Print Assumptions C20_precache_miss_own_backend.
+Print Assumptions C20_precache_crosses_backends_refuted.
